@@ -126,6 +126,20 @@ def roots(tier, seed):
                         B = copy.deepcopy(A)
                         B["cons"][0]["form"] = form
                         pair("dict-vs-nlc", A, B)
+                # (iii') several dict constraints carrying different args vs the same functions with the value baked in
+                for pats2 in [("free",) * n, pats]:
+                    A = alpha.base_case(n, pats2, where, obj,
+                                        [alpha.constraint("ball_ge", n), alpha.constraint("ball_ge", n),
+                                         alpha.constraint("ball_eq", n)], options=dict(cap))
+                    A["cons"][0]["shift"] = 0.5
+                    A["cons"][1]["shift"] = -0.125
+                    A["cons"][1]["funs"][0]["c"] = [0.25] * n
+                    A["cons"][2]["shift"] = 0.25
+                    B = copy.deepcopy(A)
+                    for c, form in zip(B["cons"], ["dict_ineq", "dict_ineq", "dict_eq"]):
+                        c["form"] = form
+                        c["args"] = [c.pop("shift")]
+                    pair("dict-args-vs-nlc", A, B)
                 # (iv) two-sided vs two one-sided
                 for pats2 in [("free",) * n, pats]:
                     A = alpha.base_case(n, pats2, where, obj, [alpha.constraint("lin_two", n)], options=dict(cap))
@@ -283,7 +297,7 @@ def run_case(root):
 
 def coverage(agg, tier, roots_):
     s = agg.stats
-    kinds = ["fixed-vs-reduced", "fixed-vs-reduced:scaled", "fixed+scale-vs-reduced+rescaled", "bounds-forms", "scale-vs-rescaled", "dict-vs-nlc", "two-sided-vs-split:linear",
+    kinds = ["fixed-vs-reduced", "fixed-vs-reduced:scaled", "fixed+scale-vs-reduced+rescaled", "bounds-forms", "scale-vs-rescaled", "dict-vs-nlc", "dict-args-vs-nlc", "two-sided-vs-split:linear",
              "two-sided-vs-split:nonlinear", "regroup:linear", "regroup:nonlinear", "regroup:linear-mixed", "regroup:nonlinear-mixed", "nan-vs-inf-limits"]
     herr = [f"no pair of kind {k}" for k in kinds if not s.get("pair_" + k)]
     if not s.get("residual_points"):
